@@ -35,7 +35,7 @@ struct IdentWorld : World {
 			op.a = r.below(3) | (r.below(3) << 8);
 			// length selector relative to the inline capacity of the target: b = selector, c = raw value
 			op.b = r.below(8); op.c = r.below(70000);
-			if (allocf && r.chance(1, 3)) { op.fault = FL_ALLOC; op.fa = 1; }
+			if (allocf && r.chance(1, 3)) { op.fault = FL_ALLOC; op.fa = r.chance(1, 3) ? 2 : 1; }      // (the second allocation of an op: e.g. the name behind a node that was allocated fine)
 			p.ops.push_back(op);
 		}
 	}
@@ -77,7 +77,7 @@ struct IdentWorld : World {
 		verify("setup");
 		for (const Op &op : p.ops) {
 			int t = (int) (op.a & 0xff) % 3, s = (int) ((op.a >> 8) & 0xff) % 3;
-			uint64_t failn = op.fault == FL_ALLOC ? 1 : 0; uint64_t fired = 0;
+			uint64_t failn = op.fault == FL_ALLOC ? (uint64_t) std::max<int64_t>(op.fa, 1) : 0; uint64_t fired = 0;
 			bool was_ext = id[t]->_len > id[t]->_max;
 			st.hit(std::string("op:") + OPS[op.kind]);
 			int outcome = 0; bool now_ext;
@@ -217,7 +217,8 @@ struct IdentWorld : World {
 					node *n; { Sut su(failn); n = node::create((const char *) nb.p, (op.c & 2) ? -1 : (int) L); fired = g.fired; }
 					if (!n) { if (!fired) fail("refused-valid", "node::create with a name of %zu bytes failed", L); break; }
 					const char *got; { Sut su; got = mpt_node_ident(n); }
-					if (!fired && L && (!got || memcmp(got, nb.p, L) || got[L])) fail("wrong-content", "C++ node created with a name of %zu bytes reads it back differently", L);
+					// (a node that is handed out carries the name it was created with - also when an allocation failed on the way: then no node, or the whole name)
+					if (L && (!got || memcmp(got, nb.p, L) || got[L])) fail("wrong-content", "C++ node created with a name of %zu bytes%s reads it back differently (%s)", L, fired ? " under an allocation failure" : "", got ? "other content" : "no name");
 					size_t L2 = (size_t) (op.c / 7) % 400; if (L2 > pool.size()) L2 = pool.size();
 					Block n2(L2 + 1, 0); if (L2) memcpy(n2.p, pool.data() + (pool.size() - L2), L2); n2.p[L2] = 0; for (size_t k = 0; k < L2; ++k) if (!n2.p[k]) n2.p[k] = 'r';
 					bool ok; { Sut su; ok = n->ident.set_name((const char *) n2.p, (int) L2); }
